@@ -26,6 +26,8 @@ func TestMain(m *testing.M) {
 	vstat.Main(m, "C06")
 }
 
+type ebpfMap = ebpf.Map
+
 // fataler is what checks report through (*testing.T and *rapid.T).
 type fataler interface {
 	Fatalf(format string, args ...any)
